@@ -39,8 +39,9 @@ def run_demo(demo, tree, workdir, outdir):
                     continue
                 if fn.endswith(('.py', '.cpp', '.cc', '.h', '.sh', '.hpp')):
                     txt = open(src_p, errors='replace').read()
-                    txt = re.sub(r'/tmp/wt/C\d\d_out', env_dir, txt)
-                    txt = re.sub(r'/tmp/wt/C\d\d(?![_\d])', tree, txt)
+                    txt = re.sub(r'/tmp/wt\d?/C\d\d/\.\./C\d\d_out', env_dir, txt)
+                    txt = re.sub(r'/tmp/wt\d?/C\d\d_out', env_dir, txt)
+                    txt = re.sub(r'/tmp/wt\d?/C\d\d(?![_\d])', tree, txt)
                     open(dst_p, 'w').write(txt)
                 else:
                     shutil.copy(src_p, dst_p)
@@ -62,7 +63,9 @@ def run_demo(demo, tree, workdir, outdir):
 def main():
     prop = sys.argv[1]
     keep = '--keep' in sys.argv
-    outdir = '/tmp/wt/%s_out' % prop
+    base = sys.argv[sys.argv.index('--dir') + 1] if '--dir' in sys.argv else '/tmp/wt'
+    offset = int(sys.argv[sys.argv.index('--offset') + 1]) if '--offset' in sys.argv else 0
+    outdir = '%s/%s_out' % (base, prop)
     patches = sorted(glob.glob(os.path.join(outdir, 'change*.diff')))
     if not patches:
         print('no patches in', outdir)
@@ -105,7 +108,7 @@ def main():
             info['caught_by_own'] = prop in info['fired']
             results.append(info)
             if keep and info['applies'] and info['suite_ok'] and info['demo_ok']:
-                dst = os.path.join(VERIF, 'seeded', '%s-%s' % (prop, n))
+                dst = os.path.join(VERIF, 'seeded', '%s-%s' % (prop, int(n) + offset))
                 os.makedirs(dst, exist_ok=True)
                 shutil.copy(patch, os.path.join(dst, 'patch.diff'))
                 for demo in demos:
